@@ -4,9 +4,12 @@ import re
 
 from hypothesis import strategies as st
 
-from .. import events as EV, files, kmodel, logs, scenario as SC, strategies as S
+import datetime
+from fractions import Fraction
+
+from .. import cli as CLI, events as EV, files, kmodel, logs, scenario as SC, strategies as S
 from ..core import Violation, guard
-from ..io_util import BudgetReader
+from ..io_util import BudgetReader, HOST_ZONES, zoned
 
 ID = 'C14'
 RULE = ('dumps: version-2 files from scenario programs of 1..3 threads (thread maps with duplicate tids/pids and threads '
@@ -20,8 +23,10 @@ RULE = ('dumps: version-2 files from scenario programs of 1..3 threads (thread m
         'or just after the triggering event, and an undeclared thread is never given a declared pid or name; '
         '(4) every column the listing prints with all switches on has a non-empty segment carrying the modelled '
         'content (timestamp, code name, qualifier, tid, name(pid), argument bytes; log date); (5) the same parser object '
-        'formatting a second, map-less dump reads as a fresh object. New-thread records may re-declare a logging thread and '
-        'lose their name record. Non-trivial: the stream '
+        'formatting a second, map-less dump reads as a fresh object, and two objects whose listings are read alternately do not influence each other. New-thread records may re-declare a logging thread and '
+        'lose their name record. clock: with the five time-base attributes set the timestamp column is a date within max(2 us, 2^-50 relative) of '
+        'usecs_since_epoch + (ts - mach_absolute_time) * numer / denom / 1000 in the given zone, columns still compose, and an '
+        'incomplete time base shows the tick count (log dates and clock dates on hosts of 7 local time zones); cli: --show-tid / --color of the command line. Non-trivial: the stream '
         'changes the attribution of a thread that later emits a line, or a line belongs to an undeclared thread; '
         'distinct by (file, configs).')
 ASSUMPTIONS = ['A2: names and paths shown have no leading/trailing whitespace and no control characters',
@@ -34,17 +39,21 @@ MAP_WRITERS = {'TRACE_DATA_NEWTHREAD', 'TRACE_DATA_EXEC', 'TRACE_STRING_NEWTHREA
 QUAL = ['DBG_FUNC_NONE', 'DBG_FUNC_START', 'DBG_FUNC_END', 'DBG_FUNC_ALL']
 
 
-def parser_with(cfg, color=False):
+def parser_with(cfg, color=False, clock=None):
     from pykdebugparser.pykdebugparser import PyKdebugParser
     p = PyKdebugParser()
     for k, v in zip(SW, cfg):
         setattr(p, k, bool(v))
     p.color = color
+    if clock is not None:
+        # wall-clock rendering of kernel timestamps: the five public attributes a caller fills from the dump header
+        p.mach_absolute_time, p.numer, p.denom, p.usecs_since_epoch = clock['mat'], clock['numer'], clock['denom'], clock['usecs']
+        p.timezone = datetime.timezone(datetime.timedelta(minutes=clock['tz_minutes']))
     return p
 
 
-def listing(kind, blob, cfg, color=False):
-    p = parser_with(cfg, color)
+def listing(kind, blob, cfg, color=False, clock=None):
+    p = parser_with(cfg, color, clock)
     fn = {'kevents': p.formatted_kevents, 'traces': p.formatted_traces, 'callstacks': p.formatted_callstacks,
           'logs': p.formatted_logs}[kind]
     return [str(x) for x in fn(BudgetReader(blob))]
@@ -55,8 +64,8 @@ def basis():
     return [off] + [tuple(1 if j == i else 0 for j in range(6)) for i in range(6)]
 
 
-def check_composition(kind, blob, cfgs):
-    base = {cfg: guard(listing, kind, blob, cfg) for cfg in basis()}
+def check_composition(kind, blob, cfgs, clock=None):
+    base = {cfg: guard(listing, kind, blob, cfg, False, clock) for cfg in basis()}
     body = base[(0,) * 6]
     n = len(body)
     segs = []
@@ -72,7 +81,7 @@ def check_composition(kind, blob, cfgs):
             col.append(a0[:len(a0) - len(b0)])
         segs.append(col)
     for cfg in cfgs:
-        lines = guard(listing, kind, blob, cfg)
+        lines = guard(listing, kind, blob, cfg, False, clock)
         if len(lines) != n:
             raise Violation(f'line-count:{kind}', f'config {cfg} changes the number of lines: {len(lines)} vs {n}')
         for k, line in enumerate(lines):
@@ -249,6 +258,29 @@ def prop_v2(ctx, case):
         raise Violation('request-rebound-to-later-dump', f'a listing read after another request was created on a second dump: line {k} '
                                                          f'{first[k:k + 1]} instead of {plain[k:k + 1]}')
     guard(lambda: list(other))
+    # ---- two parser objects in one process, their listings read alternately (a side-by-side view of two dumps): each
+    # line still names what ITS dump declares
+    pa, pb = parser_with(cfg_on), parser_with(cfg_on)
+    ga = guard(lambda: pa.formatted_traces(BudgetReader(blob)))
+    gb = guard(lambda: pb.formatted_traces(BudgetReader(blob2)))
+    la, lb = [], []
+
+    def alternate():
+        done = object()
+        while True:
+            x, y = next(ga, done), next(gb, done)
+            if x is done and y is done:
+                return
+            if x is not done:
+                la.append(x)
+            if y is not done:
+                lb.append(y)
+    guard(alternate)
+    for label, got, exp in (('with a thread map', la, plain), ('without a thread map', lb, alone)):
+        if got != exp:
+            k = next((i for i in range(min(len(got), len(exp))) if got[i] != exp[i]), min(len(got), len(exp)))
+            raise Violation('attribution-shared-between-objects', f'two parser objects read alternately: line {k} of the dump {label} is '
+                                                                  f'{got[k:k + 1]} instead of {exp[k:k + 1]}')
     # ---- callstacks
     cbody, csegs = check_composition('callstacks', blob, cfgs)
     for k in range(len(cbody)):
@@ -324,7 +356,80 @@ def prop_logs(ctx, case):
     ctx.note(None, nontrivial=any('p' in r for r in recs) and len(recs) >= 2, classes=['logs', f'records:{min(len(recs), 4)}'])
 
 
-PROPS = {'v2': prop_v2, 'logs': prop_logs}
+def prop_clock(ctx, case):
+    """the timestamp column as a wall-clock date (the caller supplied the time base of the dump): columns still
+    compose, and the date is the record's instant"""
+    blob, evs, tm = build_stream(case['spec'])
+    clock = case['clock']
+    cfgs = [tuple(c) for c in case['configs']]
+    tz = datetime.timezone(datetime.timedelta(minutes=clock['tz_minutes']))
+    epoch = datetime.datetime.fromtimestamp(0, tz=tz).replace(tzinfo=None)
+
+    def instant(ts):
+        us = Fraction(clock['usecs']) + Fraction((ts - clock['mat']) * clock['numer'], clock['denom'] * 1000)
+        return us
+
+    def check_col(kind, k, col, ts):
+        text = col.strip()
+        try:
+            shown = datetime.datetime.strptime(text, '%Y-%m-%d %H:%M:%S.%f')
+        except ValueError:
+            raise Violation(f'clock-column:{kind}', f'{kind} line {k}: with a time base set the timestamp column is {col!r}, not a date')
+        got_us = Fraction((shown - epoch) // datetime.timedelta(microseconds=1))
+        # the date is computed in double precision: 2 us, or 2^-50 of the distance from the epoch where that is more
+        if abs(got_us - instant(ts)) > max(2, abs(instant(ts)) / 2 ** 50):
+            raise Violation(f'clock-column:{kind}', f'{kind} line {k}: timestamp {ts} is shown as {text} ({int(got_us)} us since the epoch), the time base '
+                                                    f'{clock} puts it at {float(instant(ts)):.1f} us (tolerance max(2 us, 2^-50 of the value))')
+    body, segs = check_composition('kevents', blob, cfgs, clock)
+    for k in range(len(evs)):
+        check_col('kevents', k, segs[0][k], 1001 + 7 * k)
+    tbody, tsegs = check_composition('traces', blob, cfgs, clock)
+    from pykdebugparser.pykdebugparser import PyKdebugParser
+    objs = guard(lambda: list(PyKdebugParser().traces(BudgetReader(blob))))
+    if len(objs) != len(tbody):
+        raise Violation('line-count:traces', 'traces() and formatted_traces() disagree')
+    for k, t in enumerate(objs):
+        check_col('traces', k, tsegs[0][k], t.ktraces[0].timestamp)
+    cbody, csegs = check_composition('callstacks', blob, cfgs, clock)
+    cobjs = guard(lambda: list(PyKdebugParser().callstacks(BudgetReader(blob))))
+    if len(cobjs) != len(cbody):
+        raise Violation('line-count:callstacks', 'callstacks() and formatted_callstacks() disagree')
+    for k, c in enumerate(cobjs):
+        check_col('callstacks', k, csegs[0][k], c.timestamp)
+    # an incomplete time base (any one attribute missing) falls back to the raw tick count, never to a wrong date
+    missing = case['missing']
+    p = parser_with((1, 0, 0, 0, 0, 0), False, clock)
+    setattr(p, missing, None)
+    raw = guard(lambda: [str(x) for x in p.formatted_kevents(BudgetReader(blob))])
+    for k, line in enumerate(raw):
+        if line.strip() != str(1001 + 7 * k):
+            raise Violation('clock-column:incomplete-time-base', f'with {missing} unset the timestamp column of event {k} is {line!r}, expected the tick count {1001 + 7 * k}')
+    ctx.note([blob, clock, cfgs], nontrivial=len(evs) >= 2, classes=['clock', 'traces' if tbody else 'no-traces', 'callstacks' if cbody else 'no-callstacks'])
+
+
+def prop_cli(ctx, case):
+    """the column options of the command line: --show-tid/--no-show-tid and --color/--no-color"""
+    version = case['version']
+    blob = build_stream(case['spec'])[0] if version == 2 else files.build_v3(case['spec'])
+    for cmd in (('kevents', 'traces', 'callstacks') if version == 2 else ('kevents', 'logs')):
+        outs = {}
+        for show in (None, False, True):
+            o = {'show_tid': show, 'color': False}
+            outs[show] = CLI.expect(cmd, o, blob, guard(CLI.reference_items, cmd, o, blob), f'column options {o}')
+        if outs[None] != outs[False]:
+            raise Violation(f'cli:{cmd}:default-columns', 'omitting --show-tid differs from --no-show-tid')
+        if cmd == 'traces':
+            plain = outs[False]
+            for col in (None, True):
+                out, exc = guard(CLI.invoke, cmd, {'show_tid': False, 'color': col}, blob)
+                if exc is not None or SGR.sub('', out) != plain:
+                    raise Violation('cli:traces:colour-changes-text', f'`traces {"--color" if col else ""}` with the escape sequences stripped differs from `traces --no-color` ({exc})')
+        ctx.note([blob, cmd], nontrivial=outs[True] != outs[False], classes=['cli', cmd])
+
+
+prop_logs = zoned(prop_logs)
+prop_clock = zoned(prop_clock)
+PROPS = {'v2': prop_v2, 'logs': prop_logs, 'clock': prop_clock, 'cli': prop_cli}
 
 
 def configs():
@@ -350,5 +455,15 @@ def run(ctx):
     ctx.run_given('v2', v2, prop_v2, ctx.n(120, 200))
     asc = st.text(st.characters(min_codepoint=0x21, max_codepoint=0x7e), min_size=1, max_size=10)
     lg = st.fixed_dictionaries({'spec': files.v3_spec(max_events=4, max_n=4, tids=[0x10, 0x11, 0x12], log_copies=2, force_logs=True),
-                                'configs': configs(), 'all64': st.just(not ctx.quick)})
+                                'configs': configs(), 'all64': st.just(not ctx.quick), 'zone': st.sampled_from(HOST_ZONES)})
     ctx.run_given('logs', lg, prop_logs, ctx.n(80, 150))
+    clock = st.fixed_dictionaries({'mat': st.sampled_from([0, 500, 1001, 2000, 10 ** 6, 2 ** 40]), 'numer': st.sampled_from([1, 3, 125, 1000, 10 ** 6, 12345678]),
+                                   'denom': st.sampled_from([1, 3, 24, 1000]), 'usecs': st.integers(0, 4 * 10 ** 15),
+                                   'tz_minutes': st.sampled_from([0, 0, 60, -480, 330, 765, -720])})
+    ck = st.fixed_dictionaries({'spec': spec, 'configs': st.lists(st.lists(st.integers(0, 1), min_size=6, max_size=6), min_size=4, max_size=4),
+                                'clock': clock, 'zone': st.sampled_from(HOST_ZONES), 'missing': st.sampled_from(['mach_absolute_time', 'numer', 'denom', 'usecs_since_epoch', 'timezone'])})
+    ctx.run_given('clock', ck, prop_clock, ctx.n(60, 400))
+    if ctx.failures:
+        return          # the command line reads real files without a read budget: not on a tree that already fails
+    ctx.run_given('cli', st.fixed_dictionaries({'version': st.just(2), 'spec': spec}), prop_cli, ctx.n(25, 120))
+    ctx.run_given('cli', st.fixed_dictionaries({'version': st.just(3), 'spec': lg.map(lambda c: c['spec'])}), prop_cli, ctx.n(15, 80))
